@@ -9,6 +9,7 @@ import (
 	"path/filepath"
 	"regexp"
 	"strings"
+	"sync"
 	"testing"
 
 	"github.com/roddhjav/apparmor.d/pkg/paths"
@@ -28,6 +29,20 @@ type Target struct {
 var docFamily = map[string]string{"arch": "pacman", "debian": "apt", "ubuntu": "apt", "whonix": "apt", "opensuse": "zypper"}
 var allDists = []string{"arch", "debian", "ubuntu", "opensuse", "whonix"}
 var abiVersions = []Target{{ABI: 3, Version: 3.0}, {ABI: 4, Version: 4.0}, {ABI: 4, Version: 4.1}}
+
+// c03Targets: the ABI and the version are separate options (--abi, --version): the filters abiN and
+// apparmorX.Y must follow their own option also where the two disagree.
+func c03Targets() []Target {
+	var res []Target
+	for _, d := range allDists {
+		for _, av := range allAV {
+			var v float64
+			fmt.Sscanf(av.Ver, "%g", &v)
+			res = append(res, Target{Dist: d, ABI: av.ABI, Version: v})
+		}
+	}
+	return res
+}
 
 func allTargets() []Target {
 	var res []Target
@@ -193,7 +208,7 @@ var c03Rules = []string{"@{bin}/foo rPx,", "/etc/foo r,", "owner @{HOME}/.cache/
 
 func genC03Case(t *rapid.T) C03Case {
 	var c C03Case
-	c.Target = allTargets()[rapid.IntRange(0, 14).Draw(t, "target")]
+	c.Target = c03Targets()[rapid.IntRange(0, 29).Draw(t, "target")]
 	n := rapid.IntRange(1, 12).Draw(t, "nsegs")
 	// a small pool of directives so that identical directives repeat within a file
 	type dirv struct {
@@ -339,7 +354,7 @@ func repoRoot() string {
 }
 
 func TestC03_Shipped(t *testing.T) {
-	ev := NewEv(t, "C03", "shipped", "every shipped file carrying an only/exclude directive x all 15 targets, enumerated completely (other directive kinds neutralised); same oracle as the generated part. Non-trivial: every (file, target) pair where a directive is removed; distinct by file + target")
+	ev := NewEv(t, "C03", "shipped", "every shipped file carrying an only/exclude directive x all 30 targets (5 distributions x 6 ABI/version pairs incl. the cross pairs), enumerated completely (other directive kinds neutralised); same oracle as the generated part. Non-trivial: every (file, target) pair where a directive is removed; distinct by file + target")
 	ev.Exhaustive = true
 	root := filepath.Join(repoRoot(), "apparmor.d")
 	nfiles, nuses := 0, 0
@@ -363,7 +378,7 @@ func TestC03_Shipped(t *testing.T) {
 			}
 		}
 		rel, _ := filepath.Rel(repoRoot(), path)
-		for _, tg := range allTargets() {
+		for _, tg := range c03Targets() {
 			c := C03Case{Segs: segs, Target: tg, File: "/verif-nonexistent/" + rel}
 			key := ""
 			for _, s := range segs {
@@ -383,10 +398,170 @@ func TestC03_Shipped(t *testing.T) {
 	if err != nil {
 		t.Fatalf("INFRA: walking %s: %v", root, err)
 	}
-	ev.Note("%d shipped files, %d only/exclude uses, 15 targets each", nfiles, nuses)
+	ev.Note("%d shipped files, %d only/exclude uses, 30 targets each", nfiles, nuses)
 	if nfiles == 0 {
 		t.Fatalf("INFRA: no shipped file with only/exclude directives found under %s", root)
 	}
+}
+
+// ---------------------------------------------------------------------------
+// real builds: the target the filters are judged against is derived by the program itself
+// (DISTRIBUTION -> family table, --abi, --version); in-process stages set those variables
+// directly and cannot see a wrong derivation.
+
+// c03Canon: what the other builders of a normal build do to a rule line (hotfix lower-cases
+// transition modes, abi3 comments out userns / mqueue and rewrites the abi), removed on both sides.
+func c03Canon(l string) string {
+	l = strings.TrimSpace(l)
+	if i := strings.Index(l, "#aa:"); i > 0 {
+		l = strings.TrimSpace(l[:i])
+	}
+	l = strings.TrimPrefix(l, "# ")
+	l = strings.ReplaceAll(l, "abi/4.0", "abi/3.0")
+	return strings.ToLower(l)
+}
+
+func builtNameOf(rel string, c Config, overwritten map[string]bool) string {
+	parts := strings.Split(rel, "/")
+	out := rel
+	if isProfileDir(rel) {
+		out = parts[len(parts)-1]
+		if c.ABI == 4 && overwritten[out] {
+			out += ".apparmor.d"
+		}
+	}
+	return out
+}
+
+func TestC03_Builds(t *testing.T) {
+	if err := haveBins(); err != nil {
+		t.Fatalf("INFRA: %v", err)
+	}
+	ev := NewEv(t, "C03", "builds", "real builds (prebuild binary, mode none, not full) of the shipped tree: 7 configurations in quick (every distribution, the three ABI/version pairs main.go selects and three cross pairs), all 30 in thorough; for every shipped file with an only/exclude directive that reaches the output, every guarded rule line whose text is unique in its file must be present when the program's own target (DISTRIBUTION -> family, --abi, --version) matches the filter list as documented, and absent otherwise; no marker survives. Non-trivial: a (configuration, file, guarded line) where the line is dropped; distinct by configuration + file + line")
+	var cfgs []Config
+	if isThorough() {
+		for _, d := range allDists {
+			for _, av := range allAV {
+				cfgs = append(cfgs, Config{Dist: d, ABI: av.ABI, Version: av.Ver})
+			}
+		}
+		ev.Exhaustive = true
+	} else {
+		cfgs = []Config{{Dist: "arch", ABI: 4, Version: "4.1"}, {Dist: "debian", ABI: 3, Version: "3.0"}, {Dist: "ubuntu", ABI: 4, Version: "4.0"},
+			{Dist: "opensuse", ABI: 3, Version: "4.1"}, {Dist: "whonix", ABI: 3, Version: "3.0"}, {Dist: "whonix", ABI: 4, Version: "3.0"}, {Dist: "ubuntu", ABI: 3, Version: "4.0"}}
+	}
+	files, overwritten := c03SourceFiles()
+	if len(files) == 0 {
+		t.Fatalf("INFRA: no shipped file with only/exclude directives under %s", repoRoot())
+	}
+	var mu sync.Mutex
+	parallel(len(cfgs), 8, func(i int) {
+		c := cfgs[i]
+		b, err := BuildShipped(c, false)
+		defer b.Clean()
+		if err != nil {
+			mu.Lock()
+			t.Errorf("INFRA: %v", err)
+			mu.Unlock()
+			return
+		}
+		mu.Lock()
+		defer mu.Unlock()
+		for _, p := range c03JudgeBuild(b, c, files, overwritten, ev) {
+			ev.Violate(p, "", "%s", p["message"])
+			t.Errorf("%s", p["message"])
+		}
+		ev.Sample(map[string]any{"config": c.String(), "files_with_filters": len(files)})
+	})
+}
+
+type c03SrcFile struct {
+	rel  string
+	segs []C03Seg
+	text string
+}
+
+func c03SourceFiles() ([]c03SrcFile, map[string]bool) {
+	overwritten := map[string]bool{}
+	for _, n := range readManifestLines(filepath.Join(repoRoot(), "dists", "overwrite")) {
+		overwritten[n] = true
+	}
+	var files []c03SrcFile
+	root := filepath.Join(repoRoot(), "apparmor.d")
+	filepath.Walk(root, func(path string, info os.FileInfo, err error) error {
+		if err != nil || info.IsDir() {
+			return nil
+		}
+		text := readFile(path)
+		if strings.Contains(text, "#aa:only") || strings.Contains(text, "#aa:exclude") {
+			rel, _ := filepath.Rel(root, path)
+			files = append(files, c03SrcFile{rel: rel, segs: segmentShipped(text), text: text})
+		}
+		return nil
+	})
+	return files, overwritten
+}
+
+// c03JudgeBuild compares the guarded lines of every source file with the built file of b.
+func c03JudgeBuild(b *Build, c Config, files []c03SrcFile, overwritten map[string]bool, ev *Ev) []map[string]any {
+	var problems []map[string]any
+	add := func(file, line, msg string) {
+		problems = append(problems, map[string]any{"config": c, "file": file, "line": line, "message": msg})
+	}
+	tg := c.Target()
+	for _, f := range files {
+		outPath := filepath.Join(b.Apparmord(), builtNameOf(f.rel, c, overwritten))
+		built := readFile(outPath)
+		if built == "" {
+			if ev != nil {
+				ev.Case("", "file-not-in-this-build")
+			}
+			continue
+		}
+		if strings.Contains(built, "#aa:only") || strings.Contains(built, "#aa:exclude") {
+			add(f.rel, "", fmt.Sprintf("%s: %s: an only/exclude marker survives in the built file", c, f.rel))
+		}
+		// canonical line counts of the source (uniqueness) and of the output (presence)
+		srcCount := map[string]int{}
+		for _, l := range strings.Split(f.text, "\n") {
+			srcCount[c03Canon(l)]++
+		}
+		have := map[string]bool{}
+		for _, l := range strings.Split(built, "\n") {
+			have[c03Canon(l)] = true
+		}
+		stacks := strings.Contains(f.text, "#aa:stack")
+		for _, s := range f.segs {
+			if s.Kind == "line" {
+				continue
+			}
+			lines := s.Lines
+			if s.Kind == "inline" {
+				lines = []string{s.Text}
+			}
+			keep := s.keep(tg)
+			for _, l := range lines {
+				cl := c03Canon(l)
+				if cl == "" || strings.HasPrefix(cl, "#") || srcCount[cl] != 1 {
+					continue // comments, directives of other kinds, lines that also occur unguarded
+				}
+				key := ""
+				if !keep {
+					key = c.String() + "|" + f.rel + "|" + cl
+				}
+				if ev != nil {
+					ev.Case(key, "dist:"+c.Dist, fmt.Sprintf("av:%d/%s", c.ABI, c.Version), fmt.Sprintf("kept:%v", keep))
+				}
+				switch {
+				case keep && !have[cl]:
+					add(f.rel, l, fmt.Sprintf("%s: %s: the rule %q is guarded by '%s %s', which selects this target, but it is missing from the built file", c, f.rel, strings.TrimSpace(l), s.Dir, strings.Join(s.Filters, " ")))
+				case !keep && have[cl] && !stacks:
+					add(f.rel, l, fmt.Sprintf("%s: %s: the rule %q is guarded by '%s %s', which does not select this target, but it is in the built file", c, f.rel, strings.TrimSpace(l), s.Dir, strings.Join(s.Filters, " ")))
+				}
+			}
+		}
+	}
+	return problems
 }
 
 func TestC03_Replay(t *testing.T) {
@@ -401,6 +576,26 @@ func TestC03_Replay(t *testing.T) {
 	ev := NewEv(t, "C03", "replay", "replay of one saved case")
 	ev.Case("replay")
 	var c C03Case
+	if rf.Sub == "builds" {
+		var ref struct {
+			Config Config `json:"config"`
+			File   string `json:"file"`
+		}
+		json.Unmarshal(rf.Case, &ref)
+		b, err := BuildShipped(ref.Config, false)
+		defer b.Clean()
+		if err != nil {
+			t.Fatalf("INFRA: %v", err)
+		}
+		files, overwritten := c03SourceFiles()
+		for _, p := range c03JudgeBuild(b, ref.Config, files, overwritten, nil) {
+			if p["file"] == ref.File {
+				ev.Violate(json.RawMessage(rf.Case), "", "%s", p["message"])
+				t.Errorf("%s", p["message"])
+			}
+		}
+		return
+	}
 	if rf.Sub == "shipped" {
 		var ref struct {
 			File   string `json:"file"`
